@@ -94,6 +94,21 @@ def mix(seed: int, *parts) -> int:
     return h64("seed", str(seed), *[str(p) for p in parts]) & 0x7FFFFFFFFFFFFFFF
 
 
+def lib_origin(exc):
+    """'file:function' if the innermost frame of `exc` is inside the library under test, else None."""
+    tb = exc.__traceback__
+    last = None
+    while tb is not None:
+        last = tb
+        tb = tb.tb_next
+    if last is None:
+        return None
+    fn = last.tb_frame.f_code.co_filename
+    if "/jsonpath/" in fn and "/verif/" not in fn:
+        return "%s:%s" % (fn.split("/jsonpath/", 1)[1], last.tb_frame.f_code.co_name)
+    return None
+
+
 def deadline_passed() -> bool:
     d = float(os.environ.get("VF_DEADLINE", "0") or 0)
     return bool(d) and time.time() > d
@@ -131,7 +146,18 @@ def hyp_run(strategy, body, n, seed, stats=None, stateful=False):
             if stats is not None:
                 stats.budget_exhausted = True
             raise _Stop()
-        body(x)
+        try:
+            body(x)
+        except _Stop:
+            raise
+        except Exception as e:  # noqa: BLE001
+            # an exception thrown by the library where the check did not expect one is a finding,
+            # not a harness error; anything raised by the harness's own code propagates (exit 2)
+            site = lib_origin(e)
+            if site is None or stats is None:
+                raise
+            stats.fail("lib-raised:%s@%s" % (type(e).__name__, site), {"unexpected": repr(x)[:2000]},
+                       "%s: %s (input %s)" % (type(e).__name__, e, repr(x)[:300]))
 
     try:
         t()
@@ -297,7 +323,13 @@ def _exec_task(arg):
             st = Stats()
         st.notes.append({"task": task["name"], "wall_s": round(time.time() - t0, 2)})
         return ("ok", task["name"], st)
-    except BaseException:  # harness error: report, never a VIOLATION
+    except BaseException as e:  # harness error: report, never a VIOLATION
+        site = lib_origin(e) if isinstance(e, Exception) else None
+        if site is not None:
+            st = Stats()
+            st.fail("lib-raised:%s@%s" % (type(e).__name__, site), {"unexpected": task["name"]},
+                    "task %s: %s" % (task["name"], traceback.format_exc()[-1500:]))
+            return ("ok", task["name"], st)
         return ("err", task["name"], traceback.format_exc())
 
 
